@@ -113,7 +113,7 @@ func c07PlanFor(tier string) c07Plan {
 
 func c07Cases(tier string) int {
 	p := c07PlanFor(tier)
-	return len(p.seeds)*p.perSeed + p.randCases
+	return len(p.seeds)*p.perSeed + p.randCases + c07SynthFamilies
 }
 
 var (
@@ -530,6 +530,31 @@ func c07Run(c *ev.Ctx) {
 		}
 		c.Case(fmt.Sprintf("field|%s|block%d|fields%d", name, block, len(fields)), ran > 0)
 		checkCanary(name)
+		return
+	}
+	if c.Index >= nField+plan.randCases {
+		// structural inputs built byte by byte (c07synth.go)
+		fam, inputs := c07SynthFamily(c.Index - nField - plan.randCases)
+		opened := 0
+		for j, in := range inputs {
+			if c.SkipSub(j) {
+				continue
+			}
+			if err := os.WriteFile(input, in.data, 0o644); err != nil {
+				c.Inconclusive("write input: " + err.Error())
+				return
+			}
+			c.Mark(j, "structural input "+in.name)
+			before := c.CounterValue("inputs_opened")
+			c07Probe(c, input, len(in.data), c07Base{}, "structural:"+fam, map[string]any{"structural": in.name, "bytes": len(in.data)})
+			if c.CounterValue("inputs_opened") > before {
+				opened++
+				c.Count("structural_inputs_opened", 1)
+			}
+			c.Count("structural_inputs", 1)
+		}
+		c.Case("structural|"+fam, len(inputs) > 0)
+		checkCanary(fam)
 		return
 	}
 	// random mutations (seed-dependent)
